@@ -18,6 +18,9 @@ theorem einv_pStep (e : PEng) (d : Disk) (op : POp) (h : EInv e d) (hv : op.vali
     obtain ⟨e', as, hr, _, hinv, _⟩ := pRestart_spec e d h
     simp only [pStep, hr]
     exact hinv
+  | ioFailed n =>
+    simp only [pStep, Disk.applyAll, List.foldl_nil]
+    exact ⟨h.dinv.mono (Nat.le_add_right _ _), h.active, h.walNames, h.snapNames⟩
 
 theorem einv_pRun (cfg : PCfg) (ops : List POp) (hv : ∀ op ∈ ops, op.valid) :
     EInv (pRun cfg ops).1 (pRun cfg ops).2 := by
